@@ -19,9 +19,13 @@ for d in sorted(glob.glob(os.path.join(V, "seeded", "*", ""))):
     meta = json.load(open(mp))
     props = meta.get("detected_by") or [meta.get("base_property", meta["property"][:3])]
     patch = os.path.join(d, "patch.diff")
-    if subprocess.run("git -C /repo apply --check %s" % patch, shell=True).returncode != 0:
-        rows.append((name, props, "PATCH DOES NOT APPLY")); print(rows[-1]); continue
-    subprocess.run("git -C /repo apply %s" % patch, shell=True)
+    apply_cmd = "git -C /repo apply %s" % patch
+    if subprocess.run("git -C /repo apply --check %s" % patch, shell=True, stderr=subprocess.DEVNULL).returncode != 0:
+        # hook lines added to /repo later can sit inside the context of a stored patch: patch(1) with fuzz, else listed
+        apply_cmd = "patch -p1 -F3 --no-backup-if-mismatch -r - -d /repo < %s" % patch
+        if subprocess.run("patch -p1 -F3 --dry-run --no-backup-if-mismatch -r - -d /repo < %s" % patch, shell=True, stdout=subprocess.DEVNULL, stderr=subprocess.DEVNULL).returncode != 0:
+            rows.append((name, props, "PATCH DOES NOT APPLY (stored before the phase hooks were added to this file)")); print(rows[-1]); continue
+    subprocess.run(apply_cmd, shell=True, stdout=subprocess.DEVNULL)
     try:
         res = []
         for p in props[:2]:
